@@ -61,13 +61,22 @@ float-valued, hence inexact beyond 2^53 (noted by the respective harness).
 
 False alarms of the machinery met during construction and what was done: (i) the proof step scanned EVERY .v file for forbidden commands, so one
 property's in-progress `admit` failed all properties - the scan is now scoped to the files a property depends on; (ii) wall-clock guards of 5 s expired
-under machine load (load average 60-150 while 20 builders ran) and were reported as hangs - hang verdicts are retried once with a longer guard before they
-count; (iii) evidence files written by runs against seeded trees were committed by mistake (flagged by `vp check`) - seeded runs now write evidence and
+under machine load (load average 60-150 while 20 builders ran) and were reported as hangs - first hang verdicts were retried with a longer guard, finally
+(after the thorough tier of C18 reported four work-volume instances as hangs on the unchanged tree) `core.guarded` was changed to a CPU-time limit
+(ITIMER_PROF; wall-clock only as a 20x backstop), so load cannot produce a hang verdict, and the C18 limit scales with the instance (a 10^4-evaluation
+local search legitimately needs 40 CPU-seconds); all 20 quick checks started at the same moment now pass in under 3 minutes; (iii) evidence files written by runs against seeded trees were committed by mistake (flagged by `vp check`) - seeded runs now write evidence and
 replays elsewhere (`VERIF_EVIDENCE_DIR`, `VERIF_REPLAY_DIR`); (iv) concurrent runs of one property shared `coq/Cases/<id>` and produced spurious internal
 errors - every run now has its own case directory; (v) a shrinker produced a witness that also failed on clean code (C10) - shrinking steps were
 restricted to exactness-preserving ones; (vi) my own first repair of the simplex phase-1 tolerance (relative to max|rhs|) was WRONG and was caught by the C04
 check within minutes (an infeasible row `0 <= -1` next to a large right-hand side was declared feasible) before it was committed; the committed repair is
-relative to the initial total infeasibility.
+relative to the initial total infeasibility; (vii) the C18 "twin" check (a state re-built from its public fields must behave like the original) compared
+exact post-states although `regret_insertion` breaks cost ties by the iteration order of the `unassigned` SET, which in CPython depends on the set's
+insertion/deletion history - found by the thorough tier on the unchanged tree; the reference run now gets a freshly built set at the same steps, so only
+hidden state can make the two runs differ; (viii) a harmless refactoring of vrp.py that binds operator parameters by keyword (`partial(random_removal,
+degree=0.1)`) met a recording wrapper of ours that only took positional arguments (TypeError reported as a violation) - the wrapper now binds through the
+operator's signature; (ix) three oracle tolerances demanded more than the property states and were corrected without touching the judged domain: an LP
+infeasible by 1 at right-hand sides of 1.7e13 (6e-14 relative, below the property's tolerance) is judged against the relaxed LP as well; PageRank runs whose
+`tol` is below binary64 resolution only need back-end agreement; float cases of the observation-only classes are no longer sent to the exact Coq spec check.
 """)
 # ---- section 10 seeded
 rows = []
@@ -75,17 +84,18 @@ for d in sorted(glob.glob(f"{V}/seeded/*")):
     if not os.path.isdir(d) or os.path.basename(d) == "harmless": continue
     m = json.load(open(d + "/meta.json"))
     rows.append((os.path.basename(d), m.get("property"), str(m.get("needs", m.get("summary", "")))[:150].replace("\n", " ").replace("|", "/"),
-                 str(m.get("verif_result", ""))[:110].replace("|", "/"), str(m.get("final_result", ""))[:90].replace("|", "/")))
+                 str(m.get("verif_result", ""))[:110].replace("|", "/"), (("NOT CAUGHT - " + m["scope_note"]) if m.get("scope_note") and str(m.get("final_result", "")).startswith("MISSED") else str(m.get("final_result", ""))[:90]).replace("|", "/")))
 out.append("\n## 10. Independently seeded changes and which checks catch them\n")
-out.append("Fresh sub-agents were given ONLY a property's text (round 2: plus a generic description of what a strong differential checker does) and a scratch")
+out.append("Fresh sub-agents were given ONLY a property's text (rounds 2 and 3: plus a generic description of what a strong differential checker does) and a scratch")
 out.append("worktree of /repo, and asked for changes that break the property while compiling and passing the existing tests, each needing something specific to")
 out.append("manifest, with a demonstration.  The coordinator confirmed each (patch applies; demo exits 0 without and 1 with the change) with `tools/try_seed.sh`,")
 out.append("which runs the check against a scratch worktree (`SOLVOR_REPO`) so /repo itself is never modified.  Kept under `seeded/<name>/`.\n")
 out.append("| seeded change | property | needs | first result | final result (tools/run_seeds.py) |"); out.append("|---|---|---|---|---|")
 for r in rows: out.append("| %s | %s | %s | %s | %s |" % r)
-n = len(rows); caught = sum(1 for r in rows if r[4].startswith("CAUGHT")); r1 = [r for r in rows if not r[0].startswith("R2-")]; r2 = [r for r in rows if r[0].startswith("R2-")]
-m1 = sum(1 for r in r1 if "MISSED" in r[3])
-out.append(f"\n{n} changes kept: round 1: {len(r1)} ({m1} missed by the checks as first built); round 2: {len(r2)}, written to survive random small-input testing - almost all of them did at first.  Final: {caught} of {n} are caught with a concrete failing input; the rest are listed with the reason (patch superseded by a later fix, or the mechanism was removed by a fix).")
+n = len(rows); caught = sum(1 for r in rows if r[4].startswith("CAUGHT")); r1 = [r for r in rows if not r[0].startswith(("R2-", "R3-", "R4-"))]; r2 = [r for r in rows if r[0].startswith("R2-")]
+r3 = [r for r in rows if r[0].startswith("R3-")]; r4 = [r for r in rows if r[0].startswith("R4-")]
+m1 = sum(1 for r in r1 if "MISSED" in r[3]); r4c = sum(1 for r in r4 if "first run (quick seed 0): caught" in r[3])
+out.append(f"\n{n} changes kept: round 1: {len(r1)} ({m1} missed by the checks as first built); round 2: {len(r2)}, written to survive random small-input testing - almost all of them did at first; round 3: {len(r3)}, written against a description of the hardened checker (work-volume thresholds, in-place edits between calls, float extremes) - 3 caught at first; round 4: {len(r4)} (one slip in the core of the algorithm and one in the glue around it per property, 'what actually happens in maintenance') - {r4c} caught by the first run of the checks as they stood, the other {len(r4) - r4c} after one new family each.  Final: {caught} of {n} are caught with a concrete failing input; the rest are listed with the reason (the mechanism was removed by a later fix, or the input it needs is outside the judged domain of section 7.5).")
 out.append("""
 What the misses taught (and what was built in response):
 * round 1: rare execution HISTORIES (C08 saturate/cancel/reuse on one arc; C13 union-find trees of height 3; C02 a budget the counter steps over; C03
@@ -96,7 +106,15 @@ What the misses taught (and what was built in response):
   call sequences (inputs unmodified, answers independent of earlier calls), rare histories.  Every property module now has families for the classes that
   apply to it, judged by by-construction answers, exact references or metamorphic relations, and the Coq correspondence includes them where `vm_compute`
   stays cheap.  This wave also uncovered 14 further genuine defects of /repo (section 9: recursion depth, None labels, 2^53 sums, absolute tolerances, ...).
-* harmless refactorings (12, `seeded/harmless/`): all pass - no false alarm; the drift detector notices them and triples the budget.
+* round 3: thresholds on the amount of WORK an internal loop does (silent caps at 128 ... 2^20 iterations), caches keyed by `id()`/`len()` that leak when the
+  caller edits its object in place, float extremes -> HARDENING.md addendum: per-loop work-volume families with answers known by construction (Klee-Minty
+  cubes, parity traps, spine/hub networks, stale-heap fans, reversed chains, sweep-count ladders; maxima per loop are in each evidence file), call / edit in
+  place / call again sequences compared with a fresh call on a deep copy, finite float forms judged and non-finite ones observation-only (section 7.5).
+* round 4 (no knowledge of the checker, realistic slips): 38 of 40 caught at once, every one with a concrete input; the two others (an interior-point crash
+  that needs diverging iterates; a binary-detection near-miss caught on 2 of 3 seeds) led to an IPM divergence stress family with a hill climb on the
+  Mehrotra ratio and a "binary near-miss" MILP family.
+* harmless refactorings (`seeded/harmless/`, 45 patches in three rounds, see its README): all pass; two false alarms of ours were found this way and removed
+  (section 9, items vii-viii); the drift detector notices each change and triples the budget.
 """)
 open(f"{V}/DESIGN.md", "w").write(head + "\n".join(out) + "\n")
 print("DESIGN.md regenerated:", len(rows), "seeds,", sum(1 for f in kf['findings'] if f['status']=='fixed'), "fixed findings")
